@@ -27,7 +27,7 @@ def faultStr : Option Fault → String
 def outStr (p : Prog) (o : Outcome) : String :=
   let tr := " ".intercalate (o.st.trace.reverse.map evStr)
   let live := ",".intercalate ((sortK (kindsOf o.newLive)).map kindName)
-  let chk := s!"fb={failBalanced o} ho={handleOk p o} pu={preUntouched p o}"
+  let chk := s!"fb={failBalanced o} ho={handleOk p o} pu={preUntouched p o} pe={preUntouchedOnError p o} sr={stateRolledBack p o}"
   s!"run inj={o.st.injected} ret={retStr o} fault={faultStr o.st.fault} relpre={o.st.relPre} {chk} live=[{live}] trace=[{tr}]"
 
 def find (n : String) : Option Prog := (all.find? (fun t => t.1.name == n)).map (·.1)
